@@ -275,7 +275,14 @@ def run_history(res: Result, rng, nsteps: int, tag: str):
                     sres = SF.conjugate(SF.multiply(a, b))
                 else:
                     sres = SF.concatenate([a, SF.conjugate(a)])
-                cc_ = ctx.compile(sres)
+                o = call(ctx.compile, sres)
+                if not o.ok:
+                    # the symbolic operators accepted the pipeline (an operator refusal would have
+                    # raised above): compiling it in a fresh context must work as it does when the
+                    # operands are compiled one by one
+                    res.violate("derived-compile-raised", f"{name}: compiling {shape} in a fresh context raised {o.exc_type}: {str(o.exc)[:200]} @ {o.where()}")
+                    continue
+                cc_ = o.value
                 record(ctx, sres, cc_)
                 for c_ in pipes_all(sres):
                     if not ctx.is_compiled(c_):
